@@ -144,7 +144,16 @@ func pickExec(c *Ctx, env *pickEnv, op string) string {
 				c.PropFail("pick-panic", fmt.Sprint(r), op)
 			}
 		}()
+		given := append([]api.WarehouseLocation(nil), addrs...)
 		rd, err := util.PickReader(wid, addrs, mono, rio.Monitor{})
+		// the list is the caller's: a fetch that reorders it changes which warehouse serves the caller's next fetch
+		for i := range given {
+			if addrs[i] != given[i] {
+				c.PropFail("pick-wrong-warehouse", fmt.Sprintf("PickReader rewrote the caller's warehouse list (position %d: %q -> %q): the next fetch with this list is no longer served in the order the caller gave", i, given[i], addrs[i]), op)
+				copy(addrs, given)
+				break
+			}
+		}
 		if err != nil {
 			res = "err " + catOf(err)
 			return
@@ -197,13 +206,24 @@ func pickExec(c *Ctx, env *pickEnv, op string) string {
 }
 
 // pickDirect runs PickReader on an address list and reports which warehouse (index) served, by content identity.
+// set by pickDirect when the callee changed the caller's slice (the next fetch with that slice would be served in another order)
+var pickListChanged string
+
 func pickDirect(wid api.WareID, addrs []api.WarehouseLocation) (res string) {
 	defer func() {
 		if r := recover(); r != nil {
 			res = "panic"
 		}
 	}()
+	given := append([]api.WarehouseLocation(nil), addrs...)
 	rd, err := util.PickReader(wid, addrs, false, rio.Monitor{})
+	for i := range given {
+		if addrs[i] != given[i] {
+			pickListChanged = fmt.Sprintf("PickReader rewrote the caller's warehouse list: position %d was %q and is now %q", i, given[i], addrs[i])
+			copy(addrs, given)
+			break
+		}
+	}
 	if err != nil {
 		return "err " + catOf(err)
 	}
